@@ -1,6 +1,11 @@
 #!/bin/sh
 # usage: seed_pipeline.sh <ID> [CHECK ...]   confirm (scratch worktree) + screen (private copy of /verif) every mutant of <ID>
+# at most two pipelines run at a time (two lock files)
 id=$1; shift
+if [ -z "$SEED_LOCKED" ]; then
+  slot=$(( $(date +%s) % 2 ))
+  SEED_LOCKED=1 exec flock /tmp/seed/lock.$slot "$0" "$id" "$@"
+fi
 for md in /tmp/seed/out/$id/m*; do
   m=$(basename $md)
   [ -f $md/patch.diff ] || continue
